@@ -221,7 +221,9 @@ func (c *MapCodec) readMapEntry(mp, k unsafe.Pointer, data []byte) (int, error) 
 	// the value should be. We're going to unmarshal into this directly
 	val := mapassign(unpackEFace(c.rtype).data, mp, k)
 
-	if offset < len(data) {
+	// The value is present if its tag is. When the key is omitted the tag we
+	// have already read is the value's, and the value may well be empty
+	if index == 2 || offset < len(data) {
 		if index == 1 {
 			offset, fieldEnd, _, wt, err = c.readTagAndLength(data, offset)
 			if err != nil {
